@@ -86,7 +86,9 @@ def process_top(job):
         out['used'] = sorted(res.used)
         out['feas_checks'] = res.feas_checks
         out['undecided'] = sorted(set(res.undecided))
-        results = solve.discharge_all(res.obligations, timeout_ms, procs=inner_procs, seed=seed, both=(tier == 'thorough'))
+        # contract kwarg solver_procs=1: discharge in-process (forking a solver pool costs seconds per entry, which
+        # dominates for families of many small entries)
+        results = solve.discharge_all(res.obligations, timeout_ms, procs=getattr(top, 'extra', {}).get('solver_procs', inner_procs), seed=seed, both=(tier == 'thorough'))
         xc = out['xcheck'] = {'samples': 0, 'held': 0, 'violated': 0, 'precondition-false': 0, 'error': 0, 'no-model': 0, 'failed': []}
         for ob, r in zip(res.obligations, results):
             if ob.kind == 'xcheck':
